@@ -276,6 +276,10 @@ def run(chk):
     obs_events(chk)
     from .. import session
     session.run_for(chk, 'C15')      # Session.tla: results do not depend on earlier calls
+    from .. import units
+    units.run_for(chk, 'C15')      # Units.tla: the unit the data are expressed in is not part of the data
+    from .. import carrier
+    carrier.run_for(chk, 'C15')      # Carrier.tla: a sample denotes its value whatever container carries it
 
 
 def replay_case(chk, sig, case):
